@@ -1,4 +1,6 @@
 """C07 — evaluation results do not depend on the coordinate frame of the objects."""
+from hypothesis import strategies as st
+
 from vlib import mgrlib as MG
 from vlib.harness import Check
 
@@ -22,8 +24,19 @@ CHECK = Check(
 )
 
 
+def _tight_radii(t):
+    d, how = t
+    if how and d["thr"]["center"]:
+        # matchable radii only a quarter above the first centre-distance row (estimates sit at 0.55 .. 1.6 times those
+        # thresholds from their ground truths): many pairs lie in the outer part of the radius, where any frame-dependent
+        # notion of "within the radius" shows
+        d["mgr"]["radii"] = [1.25 * float(x) if float(x) > 0 else 1.5 for x in d["thr"]["center"][0]]
+        d["tight_radii"] = True
+    return d
+
+
 def _cases(tier):
-    return MG.manager_cases(tier, tasks=("detection", "tracking"), allow_map=False)
+    return st.tuples(MG.manager_cases(tier, tasks=("detection", "tracking"), allow_map=False), st.booleans()).map(_tight_radii)
 
 
 def _tracking_cases(tier):
